@@ -74,9 +74,9 @@ var profMonitor = &Profile{
 }
 
 var profRecycle = &Profile{
-	Name: "C10-recycle", MinOps: 3, MaxOps: 45, NColls: 2, MemPct: 40, Snaps: true, Nested: true, Stores: 2,
+	Name: "C10-recycle", MinOps: 3, MaxOps: 45, NColls: 2, MemPct: 40, Snaps: true, Nested: true, Stores: 2, BlockMutations: true,
 	Kinds: []wk{{OpSet, 28}, {OpSetR, 2}, {OpDel, 12}, {OpSnap, 10}, {OpSnapClose, 9}, {OpSetColl, 6}, {OpRmColl, 4}, {OpChurn, 9}, {OpVisit, 8},
-		{OpFlush, 4}, {OpEvict, 4}, {OpClose, 1}, {OpIter, 2}, {OpGet, 2}},
+		{OpFlush, 4}, {OpEvict, 4}, {OpClose, 1}, {OpIter, 2}, {OpGet, 2}, {OpBlock, 3}, {OpRandom, 3}},
 }
 
 var profCopy = &Profile{
@@ -108,14 +108,14 @@ var profRefCount = &Profile{
 }
 
 var profIter = &Profile{
-	Name: "C18-iter", MinOps: 3, MaxOps: 35, NColls: 2, MemPct: 25, Nested: true, Snaps: true,
+	Name: "C18-iter", MinOps: 3, MaxOps: 35, NColls: 2, MemPct: 25, Nested: true, Snaps: true, BlockMutations: true,
 	Kinds: []wk{{OpSet, 36}, {OpDel, 6}, {OpFlush, 5}, {OpEvict, 6}, {OpReopen, 2}, {OpIter, 26}, {OpVisit, 16}, {OpSnap, 2}, {OpSnapClose, 2}, {OpBlock, 2}, {OpRandom, 2}, {OpLen, 1}},
 }
 
 var profLazy = &Profile{
 	Name: "C19-lazy", MinOps: 6, MaxOps: 60, NColls: 2, BigVals: true, EndOnly: 80, Cmps: true,
 	Kinds: []wk{{OpSet, 34}, {OpSetR, 3}, {OpDel, 8}, {OpFlush, 10}, {OpEvict, 8}, {OpReopen, 8}, {OpGetItem, 8}, {OpMin, 3}, {OpMax, 3}, {OpVisit, 8},
-		{OpExist, 4}, {OpLen, 2}, {OpGet, 3}, {OpTotals, 1}},
+		{OpExist, 4}, {OpLen, 2}, {OpGet, 3}, {OpTotals, 1}, {OpMisc, 3}},
 }
 
 // Specs lists the history-based properties.
